@@ -4,6 +4,7 @@ import (
 	"encoding/json"
 	"errors"
 	"fmt"
+	"io"
 	"math/rand/v2"
 	"net/http"
 	"strings"
@@ -44,6 +45,10 @@ func (o respOp) String() string {
 		return "NoContent"
 	case "adderror":
 		return "AddError"
+	case "copy":
+		return fmt.Sprintf("io.Copy(Resp, plain reader of %q)", o.Data)
+	case "redispatch":
+		return "HandleContext(-> /y)"
 	}
 	return o.Kind
 }
@@ -81,6 +86,15 @@ func (o respOp) apply(c *rux.Context) {
 		c.NoContent()
 	case "adderror":
 		c.AddError(errors.New("recorded error"))
+	case "copy":
+		// io.Copy from a reader WITHOUT WriteTo: uses the destination's ReadFrom if it has one
+		_, _ = io.Copy(c.Resp, io.LimitReader(strings.NewReader(o.Data), int64(len(o.Data))))
+	case "redispatch":
+		// hand the context back to the router for another path (HandleContext), once
+		if c.Req.URL.Path != "/y" {
+			c.Req.URL.Path = "/y"
+			c.Router().HandleContext(c)
+		}
 	}
 }
 
@@ -181,6 +195,10 @@ func (m *respModel) step(o respOp) {
 		}
 	case "adderror":
 		m.errRec = true
+	case "copy":
+		if len(o.Data) > 0 {
+			m.write([]byte(o.Data))
+		}
 	case "nocontent":
 		m.status(204)
 	}
@@ -231,6 +249,8 @@ type c08Prog struct {
 	Method    string
 	OnError   []respOp // nil = no OnError hook; else what the hook does (may be empty)
 	HasHook   bool
+	ReaderFrom bool     // the underlying writer implements io.ReaderFrom
+	Redispatch []respOp // what the handler of /y does when the (single) handler re-dispatches
 }
 
 func (p c08Prog) describe() any {
@@ -248,13 +268,30 @@ func (p c08Prog) describe() any {
 	if p.HasHook {
 		hs = append(hs, fmt.Sprintf("OnError hook: {%s}", opsStr(p.OnError)))
 	}
+	if p.Redispatch != nil {
+		hs = append(hs, fmt.Sprintf("handler of /y (re-dispatch target): {%s}", opsStr(p.Redispatch)))
+	}
+	if p.ReaderFrom {
+		hs = append(hs, "underlying writer implements io.ReaderFrom")
+	}
 	return map[string]any{"method": p.Method, "handlers": hs, "writer_fault": fmt.Sprintf("write #%d accepts %d bytes then errors (0 = none)", p.FailAt, p.Short)}
 }
 
 func (p c08Prog) order() []respOp {
 	var ops []respOp
 	for i := range p.Pre {
-		ops = append(ops, p.Pre[i]...)
+		for _, o := range p.Pre[i] {
+			if o.Kind == "redispatch" {
+				// HandleContext is a complete dispatch of its own: Reset() (recorded errors are dropped,
+				// the response writer is kept), the target's chain, OnError if that chain recorded an
+				// error, and the header commit at the end of that dispatch
+				ops = append(ops, respOp{Kind: "redispatch-begin"})
+				ops = append(ops, p.Redispatch...)
+				ops = append(ops, respOp{Kind: "redispatch-end"})
+				continue
+			}
+			ops = append(ops, o)
+		}
 	}
 	for i := len(p.Post) - 1; i >= 0; i-- {
 		ops = append(ops, p.Post[i]...)
@@ -288,7 +325,7 @@ func (p c08Prog) nontrivial() bool {
 }
 
 func runC08(e *Env) {
-	e.Rule = "programs of response operations {SetStatus(code) for code in -1,0,100,101,200,201,204,301,404,500,599; SetHeader; Resp.Write incl. empty; WriteString; Flush; http.Error; http.Redirect; Text; JSON; NoContent; AddError} distributed over the before-Next and after-Next phases of a 1..4 handler chain (global middleware, route middleware, main), GET/POST, with or without an OnError hook (doing nothing / status / status+body), on a recording writer with a fault plan (n-th write accepts k bytes and errors); plus ALL sequences of <= 4 operations over a 9-operation alphabet in a single handler under 4 fault plans; plus chains that do nothing. Observed: the ordered call log WriteHeader/Write/Flush at the underlying writer, body bytes, Context.Length() after dispatch. Oracle: reference state machine unset -> recorded -> committed. Non-trivial: contains a flush, a zero-length write, a failing write, or a status change after the commit; distinct by program."
+	e.Rule = "programs of response operations {SetStatus(code) for code in -1,0,100,101,200,201,204,301,404,500,599; SetHeader; Resp.Write incl. empty; WriteString; Flush; http.Error; http.Redirect; Text; JSON; NoContent; AddError; io.Copy from a reader without WriteTo; a re-dispatch of the context through HandleContext in single-handler chains} distributed over the before-Next and after-Next phases of a 1..4 handler chain (global middleware, route middleware, main), GET/POST, with or without an OnError hook (doing nothing / status / status+body), on a recording writer (with or without io.ReaderFrom, like net/http's) with a fault plan (n-th write accepts k bytes and errors); plus ALL sequences of <= 4 operations over a 9-operation alphabet in a single handler under 4 fault plans; plus chains that do nothing. Observed: the ordered call log WriteHeader/Write/Flush at the underlying writer, body bytes, Context.Length() after dispatch. Oracle: reference state machine unset -> recorded -> committed. Non-trivial: contains a flush, a zero-length write, a failing write, or a status change after the commit; distinct by program."
 	e.Assumptions = []string{
 		"helpers are expanded into the primitives their documentation promises (http.Error = status + message line, Text = status + bytes, JSON = status + encoded value + newline, NoContent = status 204)",
 		"writes that may fail go through Resp.Write (WriteString/Text panic on a write error by contract and are only used without a fault plan)",
@@ -357,7 +394,10 @@ func runC08(e *Env) {
 				case x < 16:
 					o = respOp{Kind: "redirect", Code: pick(r, []int{301, 302, 307})}
 				case x < 17:
-					o = respOp{Kind: pick(r, []string{"nocontent", "adderror"})}
+					o = respOp{Kind: pick(r, []string{"nocontent", "adderror", "copy"}), Data: pick(r, []string{"", "c", "copied"})}
+					if o.Kind != "copy" {
+						o.Data = ""
+					}
 				case x < 18:
 					o = respOp{Kind: "json", Code: pick(r, codes), Data: pick(r, []string{"v", "<a>"})}
 				case x < 19 && !fault:
@@ -374,6 +414,17 @@ func runC08(e *Env) {
 		for i := 0; i < nh; i++ {
 			p.Pre = append(p.Pre, genOps(2))
 			p.Post = append(p.Post, genOps(1))
+		}
+		p.ReaderFrom = chance(r, 1, 3)
+		if nh == 1 && !fault && chance(r, 1, 4) {
+			// a single-handler chain that re-dispatches the context to another route
+			p.NGlobal = 0
+			p.Redispatch = append([]respOp{}, genOps(2)...)
+			if p.Redispatch == nil {
+				p.Redispatch = []respOp{}
+			}
+			i := r.IntN(len(p.Pre[0]) + 1)
+			p.Pre[0] = append(p.Pre[0][:i:i], append([]respOp{{Kind: "redispatch"}}, p.Pre[0][i:]...)...)
 		}
 		if chance(r, 1, 3) {
 			p.HasHook = true
@@ -397,6 +448,8 @@ func runC08(e *Env) {
 	e.Require("programs.failing_write", 1000)
 	e.Require("programs.status_after_commit", 1000)
 	e.Require("programs.onerror_hook_ran", 300)
+	e.Require("programs.readerfrom_writer", 1000)
+	e.Require("programs.redispatch", 200)
 }
 
 func c08Check(t *T, p c08Prog) {
@@ -478,18 +531,45 @@ func c08Check(t *T, p c08Prog) {
 		routeMW = append(routeMW, mk(i))
 	}
 	r.Add("/x", mk(n-1), "GET", "POST").Use(routeMW...)
+	if p.Redispatch != nil {
+		t.Count("programs.redispatch", 1)
+		r.Add("/y", func(c *rux.Context) {
+			for _, o := range p.Redispatch {
+				o.apply(c)
+			}
+		}, "GET", "POST")
+	}
 	t.AutoSample()
 
 	rec := NewRec()
 	rec.FailAt, rec.Short = p.FailAt, p.Short
-	if pv, panicked := catch(func() { r.ServeHTTP(rec, NewReq(p.Method, "/x")) }); panicked {
+	var w http.ResponseWriter = rec
+	if p.ReaderFrom {
+		t.Count("programs.readerfrom_writer", 1)
+		w = RecRF{rec}
+	}
+	if pv, panicked := catch(func() { r.ServeHTTP(w, NewReq(p.Method, "/x")) }); panicked {
 		t.Fail("servehttp-panic", "program %v panicked: %v", p.describe(), pv)
 		return
 	}
 
 	m := &respModel{failAt: p.FailAt, short: p.Short, method: p.Method}
 	for _, o := range order {
-		m.step(o)
+		switch o.Kind {
+		case "redispatch-begin":
+			m.errRec = false
+		case "redispatch-end":
+			if p.HasHook && m.errRec {
+				t.Count("programs.onerror_hook_ran", 1)
+				for _, h := range p.OnError {
+					m.step(h)
+				}
+			}
+			// the errors stay in the context: the outer dispatch's tail sees them too and runs OnError again
+			m.commit()
+		default:
+			m.step(o)
+		}
 	}
 	if p.HasHook && m.errRec {
 		// the OnError hook runs after the chain when an error was recorded
